@@ -183,5 +183,21 @@ theorem diagMatmul_sound_plain {a b o : Obj K} {Da Db : Mx K} (ha : Sound a Da) 
       · simp [hj]
   · cases h
 
+/-- the side condition that remains: at a `Diagonal @ Diagonal-family` product either all shapes are
+    plain (any broadcasting allowed), or — for BlockArray shapes — the two diagonals have one shape and
+    the right factor is square -/
+def DiagProductOk (a b : Obj K) : Prop := (PlainObj a ∧ PlainObj b) ∨ DiagProductPlain a b
+
+/-- `Diagonal.__matmul__`, both regimes -/
+theorem diagMatmul_sound' {a b o : Obj K} {Da Db : Mx K} (ha : Sound a Da) (hb : Sound b Db)
+    (hca : IsDiagCls a.md.cls) (h : diagMatmul Cfg.fixed a b = .ok o)
+    (hR : IsDiagCls b.md.cls → DiagProductOk a b) :
+    Sound o (matMul a.n Da Db) ∧ o.md.inShape = b.md.inShape ∧ o.md.outShape = a.md.outShape := by
+  by_cases hbD : IsDiagCls b.md.cls
+  · rcases hR hbD with ⟨h2, h3⟩ | h1
+    · exact diagMatmul_sound_plain ha hb hca hbD h2 h3 h
+    · exact diagMatmul_sound ha hb hca h (fun _ => h1)
+  · exact diagMatmul_sound ha hb hca h (fun hb' => absurd hb' hbD)
+
 end
 end Scico.OpAlg
